@@ -66,10 +66,16 @@ def make_trace(log):
     collector sees it"""
     kept = []
 
+    filed = {}
+
     def trace(t):
         entry = _render_trace(t)
         log.append(entry)
         kept.append((entry, t))
+        # an observer may file the events it is given (an event is hashable, like any plain object), and what a
+        # trace callable returns (a count, the result of stream.write) is of no concern to the search
+        filed[t] = len(filed)
+        return len(kept)
 
     def flush():
         for entry, t in kept:
@@ -880,6 +886,7 @@ def observe_graph(sc):
 
     def trace(t):
         count[0] += 1
+        return count[0]
 
     b.tracer = trace
     src = root
